@@ -5,7 +5,7 @@ Template directives (all on lines starting with `//@`):
   //@UNIT features_on=a,b features_off=c,d rules=log,inspect,cfg,await,opaque,spawn
   //@TAG props=C06 [known=F9] [name=...]          tags the next `fn` item written in the template (lemmas)
   //@BODY src=<path in /repo> fn=<Type::name> props=C01,C10 [known=Fxx] [rules=+pieces,-opaque]
-  //@ sub: <pattern>  =>  <replacement>            (exactly one match; `sub*:` one or more; `sub?:` any; `subN:` N)
+  //@ sub: <pattern>  =>  <replacement>            (any number of matches, also none; `sub*:` one or more; `subN:` exactly N)
   //@ pre: <text inserted after the opening brace>
   //@ post: <text inserted before the closing brace>
   //@ loopK.spec: <text inserted between loop header and its `{`>   (invariant/decreases clauses)
@@ -56,6 +56,7 @@ class FnInfo:
         self.report = []
         self.body_lines = (None, None)
         self.linemap = {}         # generated line -> source line
+        self.lost_hints = []
 
 
 def apply_directives(body, directives, unit):
@@ -99,14 +100,14 @@ def apply_directives(body, directives, unit):
                 raise TemplateError(f"sub without =>: {val}")
             pat, repl = val.split("=>", 1)
             cnt = m.group(1)
-            cnt = 1 if cnt is None else (cnt if cnt in "*?" else int(cnt))
+            cnt = "?" if cnt is None else (cnt if cnt in "*?" else int(cnt))
             body.sub(pat.strip(), repl.strip(), count=cnt)
             continue
         m = re.fullmatch(r"m2f([*?]|\d+)?", key)
         if m:
             meth, repl = val.split("=>", 1)
             cnt = m.group(1)
-            cnt = "*" if cnt is None else (cnt if cnt in "*?" else int(cnt))
+            cnt = "?" if cnt is None else (cnt if cnt in "*?" else int(cnt))
             body.method_to_fn(meth.strip(), repl.strip(), count=cnt)
             continue
         if key == "frag":
@@ -173,7 +174,13 @@ def apply_directives(body, directives, unit):
             continue
         m = re.fullmatch(r'(before|after)\s+"((?:[^"\\]|\\.)*)"(?:#(\d+))?', key)
         if m:
-            s, e = body.find_stmt(m.group(2).replace('\\"', '"'), int(m.group(3) or 0))
+            try:
+                s, e = body.find_stmt(m.group(2).replace('\\"', '"'), int(m.group(3) or 0))
+            except LostAnchor as ex:
+                # a proof hint whose anchor statement is gone is skipped; if the proof then fails the
+                # function is reported UNDECIDED, never as a violation (see run.py)
+                body.lost_hints.append(str(ex))
+                continue
             if m.group(1) == "before":
                 body.insert(toks[s].start, val + "\n")
             else:
@@ -189,7 +196,7 @@ def apply_directives(body, directives, unit):
             st, pe, bs, be = closures[k]
             body.edit(toks[st].start, toks[bs].start, val + " ", "R7-closure", body.text(st, bs - 1) + "  =>  " + val)
             if toks[bs].text != "{":
-                body.insert(toks[bs].start, "{ ")
+                body.insert(toks[bs].start, "{ ", order=-10**12)
                 body.insert(toks[be].end, " }")
             continue
         raise TemplateError(f"unknown directive `{key}`")
@@ -285,6 +292,7 @@ def splice(template_path, repo_root, canary=False):
             info.header_start = h + 1
             info.start = h + 1
             info.report = body.report
+            info.lost_hints = list(body.lost_hints)
             info.src_first_line = body.first_line
             if canary and not info.known:
                 add_false_ensures(out, h)
